@@ -21,7 +21,8 @@ impl Counters {
 
 /// A finite source over explicit frames: frame n is `frames[n]`, equilibrium
 /// after the end; counts `next()` calls. `is_exhausted()` is true exactly
-/// when no frame remains.
+/// when no frame remains. (A clone shares the counters.)
+#[derive(Clone)]
 pub struct Probe<F> {
     pub frames: Vec<F>,
     pub pos: usize,
@@ -49,7 +50,8 @@ impl<F: Frame> Signal for Probe<F> {
     }
 }
 
-/// An infinite source whose n-th frame is produced by a function of n.
+/// An infinite source whose n-th frame is produced by a function of n. (A clone shares the counters.)
+#[derive(Clone)]
 pub struct Gen<F, G: FnMut(usize) -> F> {
     pub n: usize,
     pub g: G,
